@@ -39,7 +39,8 @@ def scratch_dir(prefix: str = "vf-"):
     try:
         yield d
     finally:
-        shutil.rmtree(d, ignore_errors=True)
+        if not os.environ.get("VERIF_KEEP_SCRATCH"):     # (development aid: look at TLC's output after a failure)
+            shutil.rmtree(d, ignore_errors=True)
 
 
 def seed_from_env(default: int = 20260924) -> int:
